@@ -26,7 +26,7 @@ import (
 
 // Closure returns files plus all their transitive dependencies (looked up among
 // files first, then in the linked Go registry) in dependency order.
-func Closure(files []*descriptorpb.FileDescriptorProto) ([]*descriptorpb.FileDescriptorProto, error) {
+func Closure(files []*descriptorpb.FileDescriptorProto, roots ...string) ([]*descriptorpb.FileDescriptorProto, error) {
 	byName := map[string]*descriptorpb.FileDescriptorProto{}
 	for _, f := range files {
 		byName[f.GetName()] = f
@@ -60,9 +60,11 @@ func Closure(files []*descriptorpb.FileDescriptorProto) ([]*descriptorpb.FileDes
 		out = append(out, f)
 		return nil
 	}
-	names := make([]string, 0, len(files))
-	for _, f := range files {
-		names = append(names, f.GetName())
+	names := append([]string(nil), roots...)
+	if len(names) == 0 {
+		for _, f := range files {
+			names = append(names, f.GetName())
+		}
 	}
 	sort.Strings(names)
 	for _, n := range names {
@@ -87,7 +89,7 @@ func Validate(files []*descriptorpb.FileDescriptorProto) error {
 // Request builds the CodeGeneratorRequest protoc would send for generating
 // the named files.
 func Request(files []*descriptorpb.FileDescriptorProto, generate []string, param string) (*pluginpb.CodeGeneratorRequest, error) {
-	all, err := Closure(files)
+	all, err := Closure(files, generate...)
 	if err != nil {
 		return nil, err
 	}
